@@ -218,5 +218,54 @@ def cpu_paths(repo):
         msgs.append("sha256_shani.c: RNDMSG sequence changed")
     out += "/-! `sha256_shani.c`: the constants of the sixteen `RNDMSG` lines, in order -/\n"
     out += lean_list("shaniK", "UInt32", ks)
+    m = _one(msgs, "be32dec_128 SHUF", r"SHUF\s*=\s*_mm_set_epi8\(([^)]*)\)", s3)
+    out += "/-- `_mm_set_epi8(...)` of `be32dec_128`, as written (byte 15 first) -/\n"
+    out += "def shaniBswapSel : List Nat := %s\n" % _nats(c_ints(m.group(1)) if m else [])
+    out += "/-- immediates of the four `_mm_shuffle_epi32` (state in / state out) -/\n"
+    out += "def shaniStateShuf : List Nat := %s\n" % _nats([int(x, 0) for x in re.findall(r"_mm_shuffle_epi32\(\s*S\w+\s*,\s*(0x[0-9a-fA-F]+|\d+)\s*\)", s3)])
+    rnd4 = re.sub(r"\s+", " ", _macro(s3, "RND4"))
+    m = re.search(r"M = _mm_add_epi32\(W, IMM4\(K(\d), K(\d), K(\d), K(\d)\)\); "
+                  r"S\[(\d)\] = _mm_sha256rnds2_epu32\(S\[(\d)\], S\[(\d)\], M\); "
+                  r"M = _mm_srli_si128\(M, (\d+)\); "
+                  r"S\[(\d)\] = _mm_sha256rnds2_epu32\(S\[(\d)\], S\[(\d)\], M\);", rnd4)
+    if not m:
+        msgs.append("RND4 macro changed: " + rnd4)
+    out += "/-- `RND4`: order of `K` in `IMM4`, then (dst, src1, src2) of the first `rnds2`, the `srli_si128` bytes, (dst, src1, src2) of the second -/\n"
+    out += "def shaniRnd4 : List Nat := %s\n" % _nats([int(g) for g in m.groups()] if m else [])
+    imm4 = re.sub(r"\s+", "", _macro(s3, "IMM4"))
+    if imm4 != "(a,b,c,d)_mm_set_epi32(I32(a),I32(b),I32(c),I32(d))":
+        msgs.append("IMM4 macro changed: " + imm4)
+    mg = re.sub(r"\s+", " ", _macro(s3, "MSG4"))
+    m = re.search(r"W\[\(i \+ (\d)\) % 4\] = _mm_sha256msg1_epu32\(W\[\(i \+ (\d)\) % 4\], W\[\(i \+ (\d)\) % 4\]\); "
+                  r"W\[\(i \+ (\d)\) % 4\] = _mm_add_epi32\(W\[\(i \+ (\d)\) % 4\], _mm_alignr_epi8\(W\[\(i \+ (\d)\) % 4\], W\[\(i \+ (\d)\) % 4\], (\d+)\)\); "
+                  r"W\[\(i \+ (\d)\) % 4\] = _mm_sha256msg2_epu32\(W\[\(i \+ (\d)\) % 4\], W\[\(i \+ (\d)\) % 4\]\);", mg)
+    if not m:
+        msgs.append("shani MSG4 macro changed: " + mg)
+    out += "/-- `MSG4(W, i)` of sha256_shani.c: the offsets `k` in `W[(i + k) % 4]` in textual order, with the `alignr` byte count -/\n"
+    out += "def shaniMsg4 : List Nat := %s\n" % _nats([int(g) for g in m.groups()] if m else [])
+    rm = re.sub(r"\s+", " ", _macro(s3, "RNDMSG"))
+    m = re.search(r"RND4\(S, W\[i % 4\], K0, K1, K2, K3\); if \(i < (\d+)\) MSG4\(W, i \+ (\d+)\);", rm)
+    if not m:
+        msgs.append("RNDMSG macro changed: " + rm)
+    out += "/-- `RNDMSG`: `if (i < a) MSG4(W, i + b)` -/\n"
+    out += "def shaniRndMsg : List Nat := %s\n" % _nats([int(g) for g in m.groups()] if m else [])
+    tb = re.sub(r"\s+", " ", _fn_body(s3, "SHA256_Transform_shani"))
+    shape = [
+        r"S3210 = _mm_loadu_si128\(\(const __m128i \*\)&state\[0\]\); S7654 = _mm_loadu_si128\(\(const __m128i \*\)&state\[4\]\);",
+        r"S0123 = _mm_shuffle_epi32\(S3210, \w+\); S4567 = _mm_shuffle_epi32\(S7654, \w+\); "
+        r"S0145 = _mm_unpackhi_epi64\(S4567, S0123\); S2367 = _mm_unpacklo_epi64\(S4567, S0123\);",
+        r"W\[0\] = be32dec_128\(&block\[0\]\); W\[1\] = be32dec_128\(&block\[16\]\); W\[2\] = be32dec_128\(&block\[32\]\); W\[3\] = be32dec_128\(&block\[48\]\);",
+        r"S\[0\] = S0145; S\[1\] = S2367;",
+        r"S0145 = _mm_add_epi32\(S0145, S\[0\]\); S2367 = _mm_add_epi32\(S2367, S\[1\]\);",
+        r"S0123 = _mm_unpackhi_epi64\(S2367, S0145\); S4567 = _mm_unpacklo_epi64\(S2367, S0145\); "
+        r"S3210 = _mm_shuffle_epi32\(S0123, \w+\); S7654 = _mm_shuffle_epi32\(S4567, \w+\); "
+        r"_mm_storeu_si128\(\(__m128i \*\)&state\[0\], S3210\); _mm_storeu_si128\(\(__m128i \*\)&state\[4\], S7654\);",
+    ]
+    ok = all(re.search(pat, tb) for pat in shape)
+    bd = re.sub(r"\s+", " ", _fn_body(s3, "be32dec_128"))
+    ok = ok and bool(re.search(r"x = _mm_loadu_si128\(\(const __m128i \*\)src\); return \(_mm_shuffle_epi8\(x, SHUF\)\);", bd))
+    out += "/-- the straight-line parts of `SHA256_Transform_shani` (state load / shuffle / unpack, block loads, final add / unpack /\n"
+    out += "    shuffle / store) have the shape `Model.CpuPaths.transformShani` follows -/\n"
+    out += "def shaniShapeRecognised : Bool := %s\n" % ("true" if ok else "false")
     out += "\nend Percival.Gen.CpuPaths\n"
     return "CpuPaths", out, msgs
